@@ -210,6 +210,11 @@ package foreach
 //@   requires forall g string :: reported(step.RunningStep(r), g) == 0
 //@   ensures [at-most-one-completion] completions(step.RunningStep(r)) <= 1
 //
+// What LoadSchema assumes about its inputs ([inputs-match-provider-schema]) is what the engine has checked
+// against this schema before it calls LoadSchema: the workflow file name is a required string.
+//@ func (*forEachProvider).ProviderSchema
+//@   ensures [the-workflow-file-is-a-required-string] indom(result, "workflow") && result["workflow"] == callres(schema.NewPropertySchema, 1, 0) && \
+//@        callarg(schema.NewPropertySchema, 1, 2) == true && any(callarg(schema.NewPropertySchema, 1, 0)) == any(callres(schema.NewStringSchema, 1, 0))
 //@ func (*forEachProvider).LoadSchema
 //@   requires l != nil && l.logger != nil && l.yamlParserFactory != nil && l.executorFactory != nil
 //@   requires [inputs-match-provider-schema] typeis(inputs["workflow"], string)
